@@ -40,6 +40,9 @@ hints_by_round={
  10:["Look for a slip around numeric settings and thresholds: a zero, negative or very large value of a timeout, delay, grace, threshold, process-concurrency, gas limit, boost factor or count that takes a different path (division by it, a `<= 0` guard, a default substituted for an explicit zero, a duration compared in the wrong unit, an unsigned subtraction that wraps).",
     "Look for a slip in a `switch` over versions or kinds (spec.DataVersion from phase0 to deneb and beyond, blinded versus unblinded, account kinds, client types, relay entry kinds): a case that falls into the wrong branch, a missing case that now takes the default, a nil check on the wrong member of a versioned struct.",
     "Look for a slip in clean-up and bookkeeping that only matters later: an entry that is not removed (or is removed too early) from a map, cache, pending set or job table; a counter or flag not restored on one return path; state recorded for the wrong slot, epoch or key so that a later, unrelated operation finds or misses it."],
+ 11:["Look for a slip on a second-chance path: failover to another node or relay, a retry after a failure, the fallback taken when the preferred source returns nothing or answers late, the path taken when a cached value is missing or stale - the first attempt stays right and only the fallback is wrong (wrong argument, wrong slot or key, result not checked, state left behind by the failed first attempt).",
+    "Look for a slip in the validation of data received from outside (beacon node, relay, remote signer, configuration server): one of several checks dropped, weakened, applied to the wrong element or field, or done only after the value has already been used or stored; a check that holds for the first element of a list but is skipped for the rest.",
+    "Look for a slip in bytes and strings: hex prefix or case handling, trimming, truncation or padding into a fixed-size array, `copy` with the wrong length or offset, a key built from part of a value, a comparison of a prefix, byte order, formatting verbs that change a map key or a name used for matching."],
 }
 hints=hints_by_round.get(rnd, hints_by_round[10])
 import glob as _glob
